@@ -34,9 +34,13 @@ func c17SameInts(a, b []int) bool {
 	return true
 }
 
-//verif:entry property=C17 tier=both bounds="acyclic upcaster graph over 4 names with ne<=E edges (several per source allowed, first registered wins), each raw upcaster appending its id to the document; one stored event per name; failure injected at any single upcaster or none" cover="chain-applied,failure-original" E_quick=3 E_thorough=4
-func harnessC17Chain() {
-	E := vParam("E", 3)
+//verif:entry property=C17 tier=both bounds="acyclic upcaster graph over 4 names with ne<=E edges (several per source allowed, first registered wins), each raw upcaster appending its id to the document; one stored event per name; failure injected at any single upcaster or none; error handler given by option or by setter" cover="chain-applied,failure-original" E_quick=3 E_thorough=4
+func harnessC17Chain() { c17Chain(vParam("E", 3), false) }
+
+//verif:entry property=C17 tier=both bounds="as above with at most 2 edges, and: the error handler given by option, by setter, explicitly nil, or installed and removed again; optionally one refused (cycle-closing) registration attempted before the replay" cover="chain-applied,failure-original"
+func harnessC17ChainHandlerModes() { c17Chain(2, true) }
+
+func c17Chain(E int, extra bool) {
 	names := []string{"A", "B", "C", "D"}
 	ctx := context.Background()
 	st := NewMemoryStore()
@@ -46,17 +50,35 @@ func harnessC17Chain() {
 		fails = append(fails, c17Fail{t, tr})
 	}
 	var bus *EventBus
-	if vBool() {
+	hmode := vPick(2)
+	if extra {
+		hmode = vPick(4)
+	}
+	haveHandler := hmode <= 1
+	switch hmode {
+	case 0:
 		bus = New(WithStore(st), WithUpcastErrorHandler(onUpErr))
-	} else {
+	case 1:
 		bus = New(WithStore(st))
 		bus.SetUpcastErrorHandler(onUpErr)
+	case 2:
+		// explicitly no handler
+		bus = New(WithStore(st), WithUpcastErrorHandler(nil))
+	case 3:
+		// a handler that was installed and taken away again
+		bus = New(WithStore(st), WithUpcastErrorHandler(onUpErr))
+		bus.SetUpcastErrorHandler(nil)
 	}
 	ne := vInt(0, E)
 	failAt := vInt(-1, ne-1)
-	retOther := vInt(-1, ne-1) // this upcaster returns a type that may differ from its registered target
+	retOther := -1
+	if !extra {
+		retOther = vInt(-1, ne-1)
+	}
+	// retOther: this upcaster returns a type that may differ from its registered target
 	type edge struct{ f, t int } // t: the type the upcaster RETURNS (what the chain continues from)
 	var edges []edge
+	var declTo []string // source and declared target of every registration, in order
 	for k := 0; k < ne; k++ {
 		k := k
 		f := vPick(3)
@@ -80,6 +102,15 @@ func harnessC17Chain() {
 		}
 		vAssert(RegisterUpcastFunc(bus, names[f], declared, fn) == nil, "register-ok")
 		edges = append(edges, edge{f, t})
+		declTo = append(declTo, names[f], declared)
+	}
+	if extra && ne > 0 && vBool() {
+		// a registration that would close a cycle is attempted and refused; what was registered stays as it was
+		k := vPick(E)
+		vAssume(2*k+1 < len(declTo))
+		vAssert(RegisterUpcastFunc(bus, declTo[2*k+1], declTo[2*k], func(d json.RawMessage) (json.RawMessage, string, error) {
+			return d, declTo[2*k], nil
+		}) != nil, "cycle-closing-registration-refused")
 	}
 	// one stored event of every name
 	var offs []Offset
@@ -109,6 +140,10 @@ func harnessC17Chain() {
 			if next == failAt {
 				failed = true
 				// the error handler sees the type and data at the failing step
+				if !haveHandler {
+					vAssert(len(fails) == 0, "removed-error-handler-not-called")
+					break
+				}
 				vAssert(len(fails) == wantFails+1, "error-handler-called-once-for-failure")
 				if len(fails) > wantFails {
 					vAssert(fails[wantFails].typ == names[cur] && c17SameInts(fails[wantFails].trace, tr), "error-handler-gets-failing-step")
